@@ -331,6 +331,13 @@ pub fn explore_threads(space: &Space, cfg: &RunCfg, start: u64, end: u64, pubwor
 /// before each case; print the report as one JSON line on stdout.
 pub fn child_main(space: &Space, prop: &str, start: u64, stride: u64, shm_path: &str, deadline: Instant) {
     let shm = Shm::open(shm_path).expect("shm");
+    // a runaway allocation must fail fast (and be attributed to the case), not eat the machine
+    unsafe {
+        let lim = libc::rlimit { rlim_cur: 6 << 30, rlim_max: 6 << 30 };
+        libc::setrlimit(libc::RLIMIT_AS, &lim);
+        let core = libc::rlimit { rlim_cur: 0, rlim_max: 0 };
+        libc::setrlimit(libc::RLIMIT_CORE, &core);
+    }
     let sp = sample_points(space.n);
     let mut ctx = Ctx::new(&space.name);
     let mut idx = start;
@@ -471,7 +478,8 @@ pub fn explore_isolated(space: &Space, cfg: &RunCfg, space_ordinal: usize, child
                             .arg("--child")
                             .arg(format!("{}:{}:{}:{}:{}", space_ordinal, start, procs, shm_path, remaining.as_millis()))
                             .stdin(Stdio::null())
-                            .stderr(Stdio::inherit())
+                            .stderr(Stdio::null())
+                            .env("RUST_BACKTRACE", "0")
                             .output()
                             .expect("spawn child");
                         if out.status.success() {
